@@ -23,7 +23,7 @@ META = {
         "unmapped values are only written through the machine's setters (a direct write of garbage on the model is the user's fault)",
     ],
     "must_observe": ["external_writes", "invalid_writes", "events_executed", "falsy_value_states", "writes_in_flight"],
-    "shard_timeout": {"quick": 300, "thorough": 3400},
+    "shard_timeout": {"quick": 900, "thorough": 3400},
 }
 
 PROFILE = {"n_states": (2, 5), "n_events": (1, 3), "extra_transitions": (1, 5), "p_guard": 0.15,
